@@ -202,7 +202,7 @@ def run_verus(unit, rlimit=None, timeout=900, extra=None):
                     break
         entry['owner'] = owner[0] if owner else None
         entry['owner_kind'] = owner[1] if owner else None
-        entry['clause'] = (prim or {}).get('text', [{}])[0].get('text', '').strip() if prim else ''
+        entry['clause'] = ''
         if prim:
             entry['clause'] = '\n'.join(t['text'] for t in prim.get('text', []))[:1500].strip()
         if any(u in low for u in UNDECIDED):
